@@ -65,6 +65,19 @@ def rule_update_table(ctx):
             bad.append(("dup-not-rejected", (dup, mem, st, nw, sg), sorted(reach)))
     ctx.ob(R, "entry table", not bad, "32 valuations: stored iff eligible and signature valid; verified iff eligible; duplicates rejected" if not bad else
            "ValidatorAddrs::update deviates from the specified table (atoms %s): %s" % (names, bad[:3]), f.loc())
+    # the batch duplicate test is on the signer KEY (two different announcements of one validator in a batch are a duplicate)
+    dup_calls = [c for c in T.calls() if c["q"].endswith(("HashSet::contains", "HashSet::insert")) and not chain(T.args_of(c)[0])[1][-1:] == ["0"]]
+    okd = bool(dup_calls)
+    why = ""
+    for c in dup_calls:
+        a = T.args_of(c)
+        elem_ty = f.ty(c["t"]["f"]["ga"][0]).s if c["t"]["f"].get("ga") else ""
+        key_like = chain(a[1])[1][-1:] == ["key"] or any(x[0] == "field" and x[2] == "key" for x in subterms(a[1]))
+        if not key_like or not elem_ty.endswith("PublicKey"):
+            okd = False
+            why = "%s(%s) over a set of %s" % (c["q"].rsplit("::", 1)[1], show(a[1])[:50], elem_ty[-60:])
+    ctx.ob(R, "duplicates are detected per signer key", okd, "the per-batch set holds validator public keys (d.key)" if okd else
+           "the per-batch duplicate test does not compare signer keys (%s): two different announcements of one validator pass as distinct" % why, f.loc())
     # what is inserted is the entry under its own key
     okk = False
     for c in T.calls():
